@@ -529,6 +529,7 @@ func (m *Machine) runPath(fn *ssa.Function, pfx Prefix, b Bounds, solver *smt.So
 	if len(prefix) == 0 {
 		p.initModel = nil
 	}
+	p.sched = newSched()
 	m.path = p
 	m.journaling = true
 	m.maxDepth = b.MaxDepth
@@ -536,10 +537,17 @@ func (m *Machine) runPath(fn *ssa.Function, pfx Prefix, b Bounds, solver *smt.So
 	m.cur = nil
 	m.funcsSeen = res.Funcs
 	m.stubsSeen = res.Stubs
-	m.tasks = nil
 	m.clock = 0
 	defer func() {
 		r := recover()
+		func() {
+			defer func() {
+				if r2 := recover(); r2 != nil && r == nil {
+					r = r2
+				}
+			}()
+			m.killTasks()
+		}()
 		m.rollback()
 		m.journaling = false
 		res.Trail = p.trail
